@@ -88,11 +88,13 @@ pub struct Doc {
     pub keys: [Key; MAXENT],
     pub vals: [Val; MAXENT],
     pub data: [u32; MAXDATA],
+    /// the elements of data arrays are `null` (what `()` and other unit-like element types read) instead of numbers
+    pub unit: bool,
 }
 
 impl Doc {
     pub fn empty() -> Doc {
-        Doc { n: 0, keys: [Key::Unknown; MAXENT], vals: [Val::Null; MAXENT], data: [0; MAXDATA] }
+        Doc { n: 0, keys: [Key::Unknown; MAXENT], vals: [Val::Null; MAXENT], data: [0; MAXDATA], unit: false }
     }
 }
 
@@ -106,7 +108,6 @@ macro_rules! ser_rest_no {
     () => {
         fn serialize_none(self) -> Result<(), E> { Err(E) }
         fn serialize_some<T: ?Sized + Serialize>(self, _v: &T) -> Result<(), E> { Err(E) }
-        fn serialize_unit(self) -> Result<(), E> { Err(E) }
         fn serialize_unit_struct(self, _n: &'static str) -> Result<(), E> { Err(E) }
         fn serialize_unit_variant(self, _n: &'static str, _i: u32, _v: &'static str) -> Result<(), E> { Err(E) }
         fn serialize_newtype_struct<T: ?Sized + Serialize>(self, _n: &'static str, _v: &T) -> Result<(), E> { Err(E) }
@@ -116,6 +117,12 @@ macro_rules! ser_rest_no {
         fn serialize_tuple_variant(self, _n: &'static str, _i: u32, _v: &'static str, _l: usize) -> Result<Self::SerializeTupleVariant, E> { Err(E) }
         fn serialize_map(self, _l: Option<usize>) -> Result<Self::SerializeMap, E> { Err(E) }
         fn serialize_struct_variant(self, _n: &'static str, _i: u32, _v: &'static str, _l: usize) -> Result<Self::SerializeStructVariant, E> { Err(E) }
+    };
+}
+
+macro_rules! ser_unit_no {
+    () => {
+        fn serialize_unit(self) -> Result<(), E> { Err(E) }
     };
 }
 
@@ -134,6 +141,7 @@ impl<'a> Serializer for DocSer<'a> {
     type SerializeStructVariant = Impossible<(), E>;
     ser_no!(serialize_bool(bool) serialize_i8(i8) serialize_i16(i16) serialize_i32(i32) serialize_i64(i64) serialize_u8(u8) serialize_u16(u16) serialize_u32(u32) serialize_u64(u64) serialize_f32(f32) serialize_f64(f64) serialize_char(char) serialize_str(&str) serialize_bytes(&[u8]));
     ser_rest_no!();
+    ser_unit_no!();
     fn serialize_seq(self, _l: Option<usize>) -> Result<Self::SerializeSeq, E> {
         Err(E)
     }
@@ -185,6 +193,7 @@ impl<'a> Serializer for FieldSer<'a> {
     type SerializeStructVariant = Impossible<(), E>;
     ser_no!(serialize_bool(bool) serialize_i8(i8) serialize_i16(i16) serialize_i32(i32) serialize_i64(i64) serialize_u8(u8) serialize_u16(u16) serialize_u32(u32) serialize_f32(f32) serialize_f64(f64) serialize_char(char) serialize_str(&str) serialize_bytes(&[u8]));
     ser_rest_no!();
+    ser_unit_no!();
     fn serialize_u64(self, v: u64) -> Result<(), E> {
         self.doc.vals[self.slot] = Val::U64(v);
         Ok(())
@@ -210,7 +219,11 @@ impl<'a> SerializeSeq for SeqSer<'a> {
             return Err(E);
         }
         let mut out = 0u32;
-        value.serialize(ElemSer { out: &mut out })?;
+        let mut unit = false;
+        value.serialize(ElemSer { out: &mut out, unit: &mut unit })?;
+        if unit {
+            self.doc.unit = true;
+        }
         self.doc.data[self.len] = out;
         self.len += 1;
         self.doc.vals[self.slot] = Val::Seq(self.len);
@@ -222,6 +235,7 @@ impl<'a> SerializeSeq for SeqSer<'a> {
 }
 struct ElemSer<'a> {
     out: &'a mut u32,
+    unit: &'a mut bool,
 }
 impl<'a> Serializer for ElemSer<'a> {
     type Ok = ();
@@ -235,6 +249,10 @@ impl<'a> Serializer for ElemSer<'a> {
     type SerializeStructVariant = Impossible<(), E>;
     ser_no!(serialize_bool(bool) serialize_i8(i8) serialize_i16(i16) serialize_i32(i32) serialize_i64(i64) serialize_u16(u16) serialize_u64(u64) serialize_f32(f32) serialize_f64(f64) serialize_char(char) serialize_str(&str) serialize_bytes(&[u8]));
     ser_rest_no!();
+    fn serialize_unit(self) -> Result<(), E> {
+        *self.unit = true;
+        Ok(())
+    }
     fn serialize_u8(self, v: u8) -> Result<(), E> {
         *self.out = v as u32;
         Ok(())
@@ -375,7 +393,7 @@ impl<'de, 'a> SeqAccess<'de> for SeqAcc<'a> {
         }
         let x = self.doc.data[self.i];
         self.i += 1;
-        seed.deserialize(ElemDe { x, bad: self.bad }).map(Some)
+        seed.deserialize(ElemDe { x, bad: self.bad, unit: self.doc.unit }).map(Some)
     }
     fn size_hint(&self) -> Option<usize> {
         Some(self.len - self.i)
@@ -384,11 +402,14 @@ impl<'de, 'a> SeqAccess<'de> for SeqAcc<'a> {
 struct ElemDe {
     x: u32,
     bad: bool,
+    unit: bool,
 }
 impl ElemDe {
     fn go<'de, V: Visitor<'de>>(self, v: V) -> Result<V::Value, E> {
         if self.bad {
             v.visit_str("x")
+        } else if self.unit {
+            v.visit_unit()
         } else {
             v.visit_u64(self.x as u64)
         }
